@@ -8,7 +8,7 @@ cd $WT
 if ! git apply --3way "$P" 2>/tmp/apply_$$.err; then
   if ! git apply "$P" 2>>/tmp/apply_$$.err; then echo "PATCH DOES NOT APPLY"; cat /tmp/apply_$$.err; cd /; git -C /repo worktree remove --force $WT; exit 8; fi
 fi
-cd /verif && VERIF_REPO=$WT ./check "$ID" --tier "$TIER" --no-evidence > /tmp/mutwt_$$.out 2>&1
+cd ${VERIF_DIR:-/verif} && VERIF_REPO=$WT ./check "$ID" --tier "$TIER" --no-evidence > /tmp/mutwt_$$.out 2>&1
 rc=$?
 grep -E "kind=" /tmp/mutwt_$$.out | head -2 | cut -c1-400
 tail -2 /tmp/mutwt_$$.out | head -1
